@@ -11,18 +11,6 @@ verus! {
 //@include common/pyramid_abs.vrs
 //@include common/source_abs.vrs
 
-impl TileBBox {
-//@extract fn file="versatiles_core/src/types/tile_bbox.rs" scope="impl TileBBox" name="intersect_pyramid"
-//@ret res
-//@spec
-		requires old(self).wf(), pyramid.wf()
-		ensures res is Ok, final(self).wf(), final(self).same_frame(old(self)),
-			forall|x: int, y: int| #![trigger final(self).has(x, y)] final(self).has(x, y) == (old(self).has(x, y) && pyramid.level(old(self).level as int).has(x, y)),
-//@at "let pyramid_bbox"
-		proof { assert(pyramid.level(self.level as int).wf()); assert(pyramid.level(self.level as int).level == self.level); }
-//@end
-}
-
 // R6: VPL node / factory -> opaque; Args::from_vpl_node is derive-generated (C18 territory): any argument values may come out of it
 #[verifier::external_body] pub struct VPLNode { }
 #[verifier::external_body] pub struct PipelineFactory { }
